@@ -175,6 +175,21 @@ def farm_gen_op(rng, w):
         w.c20_fresh = set(range(1, sf.NUSERS + 1))
         return ["Time", rng.choice([1, 5, 50]), rng.choice([7, 7, 7, 8, 14])]     # next week: boosted rewards become claimable
     fresh = getattr(w, "c20_fresh", None)
+    pend = w.__dict__.setdefault("c20_pending", [])
+    if pend:
+        return pend.pop(0)
+    if fresh and len(fresh) >= 2 and w.cfg.get("boost") and rng.random() < 0.3:
+        # a position changes hands in a new week and the RECEIVER (who has not settled this week yet) gets the quote and claims:
+        # the quote must contain the receiver's boosted part, not the previous owner's
+        cands = [u for u in fresh if sf.positions_of(w, u)]
+        if cands:
+            c = rng.choice(sorted(cands))
+            d = rng.choice(sorted(u for u in fresh if u != c))
+            n, v = rng.choice(sf.positions_of(w, c))
+            amt = v if rng.random() < 0.6 else rng.randint(1, v)
+            fresh.discard(d)
+            pend.append(["Claim", d, (n, amt), []])
+            return ["Transfer", n, c, d, amt]
     if fresh and op[0] in ("Enter", "Exit", "Merge", "ClaimBoosted", "Transfer", "Compound", "Claim") and rng.random() < 0.6:
         # first touch of a user in a new week: make it a quoted claim (it carries the week's boosted payout)
         c = fresh.pop()
